@@ -219,7 +219,7 @@ mod groups {
     use futures_concurrency::stream::stream_group as sg;
     pub enum G { F(FutureGroup<Fut>), FK(fg::Keyed<Fut>), S(StreamGroup<Str>), SK(sg::Keyed<Str>) }
     fn keynum<T: std::fmt::Debug>(k: &T) -> u64 { let s = format!("{k:?}"); s[4..s.len() - 1].parse().unwrap() }
-    pub struct State { pub g: Option<G>, pub fkeys: Vec<Option<fg::Key>>, pub skeys: Vec<sg::Key>, pub next_id: usize }
+    pub struct State { pub g: Option<G>, pub fkeys: Vec<Option<fg::Key>>, pub skeys: Vec<Option<sg::Key>>, pub next_id: usize }
     impl State {
         pub fn new(comb: &str, cap: usize) -> State {
             let g = match comb {
@@ -239,8 +239,8 @@ mod groups {
                 match g {
                     G::F(x) => { let k = x.insert(Fut(child)); log(&format!("K{}", keynum(&k))); self.fkeys.push(Some(k)); }
                     G::FK(x) => { let k = x.insert(Fut(child)); log(&format!("K{}", keynum(&k))); self.fkeys.push(Some(k)); }
-                    G::S(x) => { let k = x.insert(Str(child)); log(&format!("K{}", keynum(&k))); self.skeys.push(k); }
-                    G::SK(x) => { let k = x.insert(Str(child)); log(&format!("K{}", keynum(&k))); self.skeys.push(k); }
+                    G::S(x) => { let k = x.insert(Str(child)); log(&format!("K{}", keynum(&k))); self.skeys.push(Some(k)); }
+                    G::SK(x) => { let k = x.insert(Str(child)); log(&format!("K{}", keynum(&k))); self.skeys.push(Some(k)); }
                 }
             } else if let Some(scs) = op.strip_prefix("ext(") {
                 // Extend::extend: the keys of the new members are not returned to the caller (logged: nothing)
@@ -253,11 +253,28 @@ mod groups {
                     self.fkeys.push(None); log("k");
                 }
                 match g { G::F(x) => x.extend(futs), _ => panic!("ext is FutureGroup only") }
+            } else if let Some(scs) = op.strip_prefix("iter(") {
+                // FromIterator: the group is built from an iterator of members (first operation of a case only); keys are not reported
+                let scs = &scs[..scs.len() - 1];
+                let mut kids = Vec::new();
+                for sc in scs.split(';') {
+                    let steps: Vec<Step> = if sc.is_empty() { vec![] } else { sc.split(',').map(parse_step).collect() };
+                    let id = self.next_id; self.next_id += 1; sh.borrow_mut().wakers.push(vec![]);
+                    kids.push(Child { id, steps, k: 0, sh: sh.clone() });
+                    self.fkeys.push(None); self.skeys.push(None); log("k");
+                }
+                let fresh = match g {
+                    G::F(_) => G::F(kids.into_iter().map(Fut).collect::<FutureGroup<Fut>>()),
+                    G::FK(_) => G::FK(kids.into_iter().map(Fut).collect::<FutureGroup<Fut>>().keyed()),
+                    G::S(_) => G::S(kids.into_iter().map(Str).collect::<StreamGroup<Str>>()),
+                    G::SK(_) => G::SK(kids.into_iter().map(Str).collect::<StreamGroup<Str>>().keyed()),
+                };
+                *g = fresh;
             } else if let Some(j) = op.strip_prefix("rm") {
                 let j: usize = j.parse().unwrap();
                 let r = match g {
                     G::F(x) => self.fkeys.get(j).copied().flatten().map(|k| x.remove(k)), G::FK(x) => self.fkeys.get(j).copied().flatten().map(|k| x.remove(k)),
-                    G::S(x) => self.skeys.get(j).map(|k| x.remove(*k)), G::SK(x) => self.skeys.get(j).map(|k| x.remove(*k)),
+                    G::S(x) => self.skeys.get(j).copied().flatten().map(|k| x.remove(k)), G::SK(x) => self.skeys.get(j).copied().flatten().map(|k| x.remove(k)),
                 };
                 if let Some(b) = r { log(if b { "T" } else { "F" }); }
             } else if let Some(n) = op.strip_prefix("rsv") {
@@ -273,7 +290,7 @@ mod groups {
                 let j: usize = j.parse().unwrap();
                 let r = match g {
                     G::F(x) => self.fkeys.get(j).copied().flatten().map(|k| x.contains_key(k)), G::FK(x) => self.fkeys.get(j).copied().flatten().map(|k| x.contains_key(k)),
-                    G::S(x) => self.skeys.get(j).map(|k| x.contains_key(*k)), G::SK(x) => self.skeys.get(j).map(|k| x.contains_key(*k)),
+                    G::S(x) => self.skeys.get(j).copied().flatten().map(|k| x.contains_key(k)), G::SK(x) => self.skeys.get(j).copied().flatten().map(|k| x.contains_key(k)),
                 };
                 if let Some(b) = r { log(if b { "T" } else { "F" }); }
             } else { panic!("group op {op}"); }
